@@ -613,7 +613,7 @@ def rule_sign(repo: Repo, rep: Report) -> int:
     dem = repo.method(repo.cls(f"{MD}/psk.py", "BPSKDemodulator"), "forward")
     for cx in (True, False):
         body = configured(mod.body, lambda t: cx if unparse(t) == "self.complex_output" else None)
-        n += sign_compose(rep, mod, body, dem, "y_real", f"BPSK(complex_output={cx})")
+        n += sign_compose(rep, mod, body, dem, "y_real", f"BPSK(complex_output={cx})", attrs={"self.complex_output": cx})
     # OQPSK: both rails
     mod = repo.method(repo.cls(f"{MD}/oqpsk.py", "OQPSKModulator"), "forward")
     dem = repo.method(repo.cls(f"{MD}/oqpsk.py", "OQPSKDemodulator"), "forward")
@@ -926,12 +926,12 @@ def _hard_body(dem: FuncInfo):
     return configured(dem.body, lambda t: True if unparse(t) == "noise_var is None" else (False if unparse(t) == "noise_var is not None" else None))
 
 
-def sign_compose(rep: Report, mod: FuncInfo, body, dem: FuncInfo, dem_in: str, what: str) -> int:
+def sign_compose(rep: Report, mod: FuncInfo, body, dem: FuncInfo, dem_in: str, what: str, attrs: Optional[Dict[str, object]] = None) -> int:
     try:
         out = {}
         for b in (0, 1):
             try:
-                run_fragment(body, {"x": b})
+                run_fragment(body, {"x": b}, dict(attrs or {}))
                 raise Unfoldable("no return")
             except FragReturn as r:
                 amp = r.value
